@@ -153,3 +153,117 @@ Proof.
     apply extract_secp256r1_layout; auto.
   - change (102 =? 101) with false. change (102 =? 102) with true. cbn iota. apply extract_secp256k1_layout; auto.
 Qed.
+
+(* ---------------- "over this network": messages of different networks differ ---------------- *)
+Theorem message_injective_net (xdr : addr -> bytes) : prefix_free xdr ->
+  forall net i d t n data net' i' d' t' n' data',
+    length net = length net' ->
+    0 <= t <= MAXU32 -> 0 <= t' <= MAXU32 -> 0 <= n <= MAXU32 -> 0 <= n' <= MAXU32 ->
+    build_claim_message net (xdr i) (xdr d) t n data = build_claim_message net' (xdr i') (xdr d') t' n' data' ->
+    net = net' /\ i = i' /\ d = d' /\ t = t' /\ n = n' /\ data = data'.
+Proof.
+  intros Hpf net i d t n data net' i' d' t' n' data' Hl Ht Ht' Hn Hn' E.
+  assert (En : net = net').
+  { unfold build_claim_message in E. apply app_inj_length in E; [tauto | exact Hl]. }
+  subst net'. split; auto. eapply message_injective; eauto.
+Qed.
+
+(* ---------------- a removed key stays removed ---------------- *)
+(* a key that is not allowed for a topic at an issuer stays so - and every claim presented with it
+   is rejected - through every later history that does not allow that key for that topic again *)
+Definition reallows (i : addr) (pk : bytes) (scheme t : Z) (k : call) : bool :=
+  match k with
+  | AllowKey i' pk' _ sc' t' => N.eqb i' i && bytes_eqb pk' pk && (sc' =? scheme) && (t' =? t)
+  | _ => false
+  end.
+Definition key_not_allowed (w : world) (i : addr) (pk : bytes) (scheme t : Z) : Prop :=
+  exists s, the_issuer w i = Ok s /\ is_key_allowed_for_topic s pk scheme t = false.
+
+Lemma allowed_after_allow c s pk0 r sc0 t0 has s' pk sc t : allow_key c s pk0 r sc0 t0 has = Ok s' ->
+  is_key_allowed_for_topic s' pk sc t = true ->
+  is_key_allowed_for_topic s pk sc t = true \/ (pk0 = pk /\ sc0 = sc /\ t0 = t).
+Proof.
+  intros Ha H. apply allowed_iff_keys in H.
+  unfold allow_key in Ha. destruct (is_nil pk0); [discriminate|]. destruct has as [[]|]; cbn [bind negb] in Ha; try discriminate.
+  fold (pairs_of s (pk0, sc0)) in Ha. fold (keys_of s t0) in Ha.
+  destruct (is_key_allowed_for_topic s pk0 sc0 t0); cbn [bind] in Ha.
+  - destruct (existsb _ _); [discriminate|]. destruct (_ <=? _); [discriminate|].
+    assert (E1 : is_topics s' = is_topics s) by (inversion Ha; reflexivity).
+    left. apply allowed_iff_keys. rewrite <- (keys_of_same _ _ E1). exact H.
+  - destruct (c_max_keys c <=? _); cbn [bind] in Ha; [discriminate|].
+    destruct (existsb _ _); [discriminate|]. destruct (_ <=? _); [discriminate|].
+    assert (E1 : is_topics s' = aset Z.eqb t0 (keys_of s t0 ++ [(pk0, sc0)]) (is_topics s)) by (inversion Ha; reflexivity).
+    rewrite (keys_of_after _ _ _ _ E1) in H. destruct (t =? t0) eqn:Et.
+    + apply Z.eqb_eq in Et. subst t. apply In_app_single in H. destruct H as [H|H].
+      * left. apply allowed_iff_keys. exact H.
+      * right. inversion H. auto.
+    + left. apply allowed_iff_keys. exact H.
+Qed.
+Lemma allowed_after_remove s pk0 r sc0 t0 s' pk sc t : remove_key s pk0 r sc0 t0 = Ok s' ->
+  is_key_allowed_for_topic s' pk sc t = true -> is_key_allowed_for_topic s pk sc t = true.
+Proof.
+  intros Ha H. apply allowed_iff_keys in H. apply allowed_iff_keys.
+  unfold remove_key in Ha. apply bind_ok in Ha. destruct Ha as [pairs [_ Ha]]. apply bind_ok in Ha. destruct Ha as [pairs' [_ Ha]].
+  destruct (existsb (fun p : Z * addr => fst p =? t0) pairs').
+  - assert (E1 : is_topics s' = is_topics s) by (inversion Ha; reflexivity). rewrite <- (keys_of_same _ _ E1). exact H.
+  - apply bind_ok in Ha. destruct Ha as [ks [Ek Ha]]. apply of_option_ok in Ek.
+    apply bind_ok in Ha. destruct Ha as [ks' [Er Ha]]. apply of_option_ok in Er.
+    assert (E1 : is_topics s' = if is_nil ks' then aremove Z.eqb t0 (is_topics s) else aset Z.eqb t0 ks' (is_topics s)) by (inversion Ha; reflexivity).
+    unfold keys_of in *. rewrite E1 in H. destruct (is_nil ks') eqn:En.
+    + rewrite (aget_aremove _ Z_eqb_spec) in H. destruct (t =? t0); [destruct H | exact H].
+    + rewrite (aget_aset _ Z_eqb_spec) in H. destruct (t =? t0) eqn:Et; [|exact H].
+      apply Z.eqb_eq in Et. subst t. rewrite Ek. eapply remove_first_incl; eauto.
+Qed.
+
+Lemma step_keeps_key_removed c w k i pk scheme t :
+  reallows i pk scheme t k = false -> key_not_allowed w i pk scheme t -> key_not_allowed (fst (step c w k)) i pk scheme t.
+Proof.
+  intros Hu [s [Es Hr]]. destruct (step c w k) as [w' out] eqn:E. cbn [fst].
+  pose (P := fun w0 : world => key_not_allowed w0 i pk scheme t).
+  assert (HP : P w) by (exists s; auto). change (P w').
+  assert (Hsame : forall w1, w_issuers w1 = w_issuers w -> P w1).
+  { intros w1 F. exists s. split; auto. unfold the_issuer in *. rewrite F. exact Es. }
+  assert (Hiss : forall a s1, the_issuer w a = Ok s1 -> forall s2,
+             (is_key_allowed_for_topic s2 pk scheme t = true -> a = i -> is_key_allowed_for_topic s1 pk scheme t = true) ->
+             P (set_issuer w a s2)).
+  { intros a s1 Ea s2 Hsm. unfold P, key_not_allowed. rewrite the_issuer_set_issuer. destruct (N.eqb i a) eqn:Ei.
+    - apply N.eqb_eq in Ei. subst a. rewrite Es in Ea. inversion Ea. subst s1. exists s2. split; auto.
+      destruct (is_key_allowed_for_topic s2 pk scheme t) eqn:E2; auto. rewrite (Hsm eq_refl eq_refl) in Hr. discriminate.
+    - exists s. auto. }
+  destruct k; cbn [step] in E;
+    try (unfold pure in E; inversion E; subst; exact HP);
+    try (inversion E; subst; apply Hsame; reflexivity);
+    try (apply (upd_inv P _ _ _ _ _ E HP); intros s0 _; apply Hsame; reflexivity).
+  - match type of E with (match ?x with _ => _ end) = _ => destruct x as [[s' id]|] end; inversion E; subst; [apply Hsame; reflexivity | exact HP].
+  - (* AllowKey *)
+    apply (upd_inv P _ _ _ _ _ E HP). intros s2 Hs. apply bind_ok in Hs. destruct Hs as [s1 [E1 Hs]]. apply (Hiss _ _ E1).
+    intros H2 Hi. subst i0. destruct (allowed_after_allow _ _ _ _ _ _ _ _ _ _ _ Hs H2) as [H|[Hp [Hsc Ht]]]; auto.
+    subst. cbn [reallows] in Hu. rewrite N.eqb_refl, (eqb_refl_of _ bytes_eqb_spec), !Z.eqb_refl in Hu. discriminate.
+  - (* RemoveKey *)
+    apply (upd_inv P _ _ _ _ _ E HP). intros s2 Hs. apply bind_ok in Hs. destruct Hs as [s1 [E1 Hs]]. apply (Hiss _ _ E1).
+    intros H2 _. eapply allowed_after_remove; eauto.
+  - (* Invalidate *)
+    apply (upd_inv P _ _ _ _ _ E HP). intros s2 Hs. apply bind_ok in Hs. destruct Hs as [s1 [E1 Hs]]. apply (Hiss _ _ E1).
+    destruct (nonce_after_invalidate _ _ _ _ Hs) as [_ [_ [_ [F1 _]]]]. unfold is_key_allowed_for_topic. rewrite F1. auto.
+  - (* SetRevoked *)
+    apply (upd_inv P _ _ _ _ _ E HP). intros s2 Hs. apply bind_ok in Hs. destruct Hs as [s1 [E1 Hs]]. inversion Hs. subst s2.
+    apply (Hiss _ _ E1). auto.
+Qed.
+
+Theorem key_removal_persists c w ks i pk scheme t :
+  forallb (fun k => negb (reallows i pk scheme t k)) ks = true ->
+  key_not_allowed w i pk scheme t ->
+  let w' := run c w ks in
+  key_not_allowed w' i pk scheme t /\
+  forall d sig data sd, extract_sig scheme sig = Ok sd -> sd_pk sd = pk ->
+    call_is_claim_valid c w' i d t scheme sig data = Fail.
+Proof.
+  intros Hks Hr w'. assert (Hr' : key_not_allowed w' i pk scheme t).
+  { subst w'. revert w Hr. induction ks as [|k r IH]; intros w Hr; [exact Hr|].
+    cbn [forallb] in Hks. apply andb_true_iff in Hks. destruct Hks as [Hk Hr0]. apply negb_true_iff in Hk.
+    unfold run. cbn [fold_left]. apply (IH Hr0). apply step_keeps_key_removed; auto. }
+  split; auto. intros d sig data sd Hx Hpk. destruct Hr' as [s [Es Hna]]. unfold call_is_claim_valid. rewrite Es. cbn [bind].
+  destruct (is_claim_valid c (w_now w') i s d t scheme sig data) as [[]|] eqn:E; auto.
+  apply issuer_iff in E. destruct E as [sd' [ca [vu [p [E1 [E2 _]]]]]]. rewrite Hx in E1. inversion E1. subst sd'.
+  rewrite Hpk in E2. congruence.
+Qed.
